@@ -564,6 +564,22 @@ def _bump(v: Any) -> Any:
     return None
 
 
+def _retype(v: Any) -> Any:
+    """A value that compares (and hashes) EQUAL to ``v`` in Python but is a different YAML/JSON scalar: 2.0 -> 2, 2 -> 2.0,
+    1 -> True, 0.0 -> -0.0 ...  None when there is none.  A type-sensitive expression (``str(n)``) or processor tells
+    them apart, so it is a change of the value; caches keyed on hash-equality cannot."""
+    if isinstance(v, bool):
+        return int(v)
+    if isinstance(v, int):
+        return float(v)
+    if isinstance(v, float):
+        if v == 0.0:
+            return -0.0 if str(v) == "0.0" else 0.0
+        if v.is_integer() and abs(v) < 2 ** 53:
+            return int(v)
+    return None
+
+
 def _leaf_paths(value: Any, path: tuple = ()) -> Iterator[tuple]:
     if isinstance(value, dict):
         for k, v in value.items():
@@ -638,7 +654,20 @@ def _expr_mutants(src: str, var_names: list) -> Iterator[tuple]:
 
 def _identity_part(node: dict) -> dict:
     """The respects the property lists as identity-bearing: processor, parameters, sweep definition (not context_key)."""
-    return {k: node.get(k) for k in ("processor", "parameters", "derive") if node.get(k) not in (None, {})}
+    part = {k: copy.deepcopy(node.get(k)) for k in ("processor", "parameters", "derive") if node.get(k) not in (None, {})}
+    # sweep expressions count up to operand order / association of + and * (documented as identity-preserving, C04):
+    # two nodes whose expressions are commuted forms of each other are the SAME node as far as identity goes
+    sweep = (part.get("derive") or {}).get("parameter_sweep") if isinstance(part.get("derive"), dict) else None
+    if isinstance(sweep, dict) and isinstance(sweep.get("parameters"), dict):
+        for k, src in list(sweep["parameters"].items()):
+            if isinstance(src, str):
+                try:
+                    sweep["parameters"][k] = repr(_nf(ast.parse(src, mode="eval").body))
+                except SyntaxError:
+                    pass
+        if isinstance(sweep.get("variables"), dict):
+            sweep["variables"] = dict(sorted(sweep["variables"].items()))   # order of the variables mapping carries no meaning
+    return part
 
 
 def mutations(nodes: list, counters: Optional[Callable] = None) -> Iterator[Mutation]:
@@ -700,6 +729,22 @@ def mutations(nodes: list, counters: Optional[Callable] = None) -> Iterator[Muta
                 depth = min(len(path), 2)
                 yield Mutation(f"param_value_depth{depth}", i, mu, [(i, i)],
                                {"parameter": pname, "path": list(path), "before": leaf, "after": new})
+                # the smallest possible changes of a value: another scalar type that compares equal (2.0 -> 2), and for
+                # strings an edge blank / another line ending ('out.txt' -> 'out.txt ' names another file)
+                variants = []
+                if _retype(leaf) is not None:
+                    variants.append(("param_value_retyped", _retype(leaf)))
+                if isinstance(leaf, str) and not (isinstance(pval, str) and pval.startswith("model:")):
+                    variants.append(("param_string_edge_whitespace", leaf + " "))
+                    variants.append(("param_string_edge_whitespace", " " + leaf))
+                    variants.append(("param_string_line_ending", leaf + "\n" if "\n" not in leaf else leaf.replace("\n", "\r\n")))
+                for op2, nv in variants:
+                    mu = clone()
+                    if path:
+                        _set_path(mu[i]["parameters"][pname], path, nv)
+                    else:
+                        mu[i]["parameters"][pname] = nv
+                    yield Mutation(op2, i, mu, [(i, i)], {"parameter": pname, "path": list(path), "before": leaf, "after": nv})
         # ---------------------------------------------------------------- inside the sweep definition
         if sweep is not None:
             variables = sweep.get("variables") or {}
@@ -726,6 +771,9 @@ def mutations(nodes: list, counters: Optional[Callable] = None) -> Iterator[Muta
                         nv = _bump(spec[k])
                         if nv is not None:
                             yield put(spec[:k] + [nv] + spec[k + 1:], "sweep_var_sequence_element", index=k)
+                        nv = _retype(spec[k])
+                        if nv is not None and len(spec) != 2:
+                            yield put(spec[:k] + [nv] + spec[k + 1:], "sweep_var_sequence_element_retyped", index=k)
                 elif isinstance(spec, dict) and "from_context" in spec:
                     nk = spec["from_context"] + "_m"
                     if nk not in used_keys:
@@ -748,6 +796,9 @@ def mutations(nodes: list, counters: Optional[Callable] = None) -> Iterator[Muta
                         nv = _bump(vals[k])
                         if nv is not None:
                             yield put(dict(spec, values=vals[:k] + [nv] + vals[k + 1:]), "sweep_var_sequence_element", index=k)
+                        nv = _retype(vals[k])
+                        if nv is not None:
+                            yield put(dict(spec, values=vals[:k] + [nv] + vals[k + 1:]), "sweep_var_sequence_element_retyped", index=k)
             mode = sweep.get("mode", "combinatorial")
             broadcast = bool(sweep.get("broadcast", False))
             new_mode = "by_position" if mode == "combinatorial" else "combinatorial"
